@@ -4,6 +4,9 @@
 import SeedProofs.Global
 import SeedProofs.C01
 import SeedProofs.Lemmas.Located
+import SeedProofs.Lemmas.C07Loops
+import SeedProofs.Lemmas.C07Call
+-- audit: Seed.C07.fuel_stable Seed.C07.FuelEq.of_shift Seed.C07.FuelEq.of_const Seed.C07.for_enters Seed.C07.block_scope Seed.C07.block_after_decl Seed.C07.call_unfold Seed.C07.call_boundary Seed.C07.call_return Seed.C07.call_falls_off Seed.C07.call_break_is_error Seed.C07.call_continue_is_error Seed.C07.call_error_framed Seed.C07.expr_stmt_never_escapes Seed.C07.declare_never_escapes Seed.C07.assign_never_escapes Seed.C07.opassign_never_escapes Seed.C07.return_of_call
 namespace Seed.C07
 open Seed
 
@@ -319,4 +322,415 @@ theorem jump_through_ctx (C : JCtx) (j : Stmt) {σ σ' σ'' : State} {sc sc' : L
 example (σ : State) (sc : List Addr) : ∃ σ' sc', Taken (.block (.block .hole)) σ sc σ' sc' :=
   ⟨_, _, Taken.block (Taken.block (Taken.hole _ _))⟩
 
+/-! ### loops as targets: a jump that leaves a loop body acts on exactly that loop -/
+
+section loops
+variable {σ σ1 σ2 : State} {sc : List Addr} {cond : Expr} {stmts : List Stmt}
+
+/-- `break` escaping the body of a `while`: the loop is finished, normally — nothing propagates — in the state at the
+    `break`; the condition is not evaluated again -/
+theorem while_break_exits (n : Nat) {l : Loc} (hc : evalToBool n σ sc c!"condition" cond = .ok true σ1)
+    (hb : evalBlock n σ1 sc [] stmts = .ok (.brk l) σ2) : evalWhile (n + 1) σ sc cond stmts = .ok .none σ2 := by
+  rw [while_step, hc]; simp only [Res.bind, hb]; rfl
+
+/-- … so that the statements after the loop run, in that state -/
+theorem while_break_then_rest (n : Nat) {l : Loc} (rest : List Stmt) (hc : evalToBool n σ sc c!"condition" cond = .ok true σ1)
+    (hb : evalBlock n σ1 sc [] stmts = .ok (.brk l) σ2) :
+    evalStmts (n + 3) σ sc (.While cond stmts :: rest) = evalStmts (n + 2) σ2 sc rest := by
+  apply normal_continues
+  rw [while_enters]
+  exact while_break_exits n hc hb
+
+/-- `continue` escaping the body: the loop is re-entered at the state after the body; the condition is evaluated again -/
+theorem while_continue_reenters (n : Nat) {l : Loc} (hc : evalToBool n σ sc c!"condition" cond = .ok true σ1)
+    (hb : evalBlock n σ1 sc [] stmts = .ok (.cont l) σ2) :
+    evalWhile (n + 1) σ sc cond stmts = evalWhile n σ2 sc cond stmts := by
+  rw [while_step, hc]; simp only [Res.bind, hb]; rfl
+
+/-- the same, free of fuel: the loop started at `σ` and the loop started at the post-body state have the same outcome -/
+theorem while_continue_reenters_upto {n1 n2 : Nat} {l : Loc} (hc : evalToBool n1 σ sc c!"condition" cond = .ok true σ1)
+    (hb : evalBlock n2 σ1 sc [] stmts = .ok (.cont l) σ2) :
+    FuelEq (fun k => evalWhile k σ sc cond stmts) (fun k => evalWhile k σ2 sc cond stmts) :=
+  FuelEq.of_shift (fun k => (monoAll k).evalWhile _ _ _ _) (fun k => (monoAll k).evalWhile _ _ _ _) (max n1 n2)
+    fun m hm => while_continue_reenters m (bool_mono hc (by simp) (by have := Nat.le_max_left n1 n2; omega))
+      (block_mono hb (by simp) (by have := Nat.le_max_right n1 n2; omega))
+
+/-- a body that completes normally re-enters the loop in the same way (`continue` = "go to the end of the body") -/
+theorem while_normal_reenters (n : Nat) (hc : evalToBool n σ sc c!"condition" cond = .ok true σ1)
+    (hb : evalBlock n σ1 sc [] stmts = .ok .none σ2) :
+    evalWhile (n + 1) σ sc cond stmts = evalWhile n σ2 sc cond stmts := by
+  rw [while_step, hc]; simp only [Res.bind, hb]; rfl
+
+theorem while_normal_reenters_upto {n1 n2 : Nat} (hc : evalToBool n1 σ sc c!"condition" cond = .ok true σ1)
+    (hb : evalBlock n2 σ1 sc [] stmts = .ok .none σ2) :
+    FuelEq (fun k => evalWhile k σ sc cond stmts) (fun k => evalWhile k σ2 sc cond stmts) :=
+  FuelEq.of_shift (fun k => (monoAll k).evalWhile _ _ _ _) (fun k => (monoAll k).evalWhile _ _ _ _) (max n1 n2)
+    fun m hm => while_normal_reenters m (bool_mono hc (by simp) (by have := Nat.le_max_left n1 n2; omega))
+      (block_mono hb (by simp) (by have := Nat.le_max_right n1 n2; omega))
+
+/-- `return` escaping the body is forwarded by the loop, value, position and state unchanged: it goes on to the
+    enclosing call -/
+theorem while_return_propagates (n : Nat) {v : SVal} {l : Loc} (hc : evalToBool n σ sc c!"condition" cond = .ok true σ1)
+    (hb : evalBlock n σ1 sc [] stmts = .ok (.ret v l) σ2) : evalWhile (n + 1) σ sc cond stmts = .ok (.ret v l) σ2 := by
+  rw [while_step, hc]; simp only [Res.bind, hb]; rfl
+
+/-- a false condition ends the loop -/
+theorem while_false_exits (n : Nat) (hc : evalToBool n σ sc c!"condition" cond = .ok false σ1) :
+    evalWhile (n + 1) σ sc cond stmts = .ok .none σ1 := by
+  rw [while_step, hc]; rfl
+
+variable {lhs : Expr} {k v : SVal} {r : List (SVal × SVal)}
+
+/-- `break` escaping the body of a `for`: the loop is finished, the remaining pairs `r` are dropped -/
+theorem for_break_exits (n : Nat) {l : Loc}
+    (hb : evalBlock n (σ.alloc (.list [k, v])).2 sc [(lhs, SVal.plain (.list (σ.alloc (.list [k, v])).1))] stmts = .ok (.brk l) σ2) :
+    evalFor (n + 1) σ sc lhs ((k, v) :: r) stmts = .ok .none σ2 := by
+  rw [for_step, hb]; rfl
+
+theorem for_break_then_rest (n : Nat) {l : Loc} (rest : List Stmt)
+    (hb : evalBlock n (σ.alloc (.list [k, v])).2 sc [(lhs, SVal.plain (.list (σ.alloc (.list [k, v])).1))] stmts = .ok (.brk l) σ2)
+    {σ0 : State} {iter : Expr} {it : SVal} (hi : evalExpr (n + 1) σ0 sc iter = .ok it σ)
+    (hp : toPairs σ it.v = some (some ((k, v) :: r))) :
+    evalStmts (n + 3) σ0 sc (.For lhs iter stmts :: rest) = evalStmts (n + 2) σ2 sc rest := by
+  apply normal_continues
+  rw [for_enters _ _ _ _ _ _ _ _ _ hi hp]
+  exact for_break_exits n hb
+
+/-- `continue` escaping the body of a `for`: on to the next pair of the snapshot -/
+theorem for_continue_next (n : Nat) {l : Loc}
+    (hb : evalBlock n (σ.alloc (.list [k, v])).2 sc [(lhs, SVal.plain (.list (σ.alloc (.list [k, v])).1))] stmts = .ok (.cont l) σ2) :
+    evalFor (n + 1) σ sc lhs ((k, v) :: r) stmts = evalFor n σ2 sc lhs r stmts := by
+  rw [for_step, hb]; rfl
+
+theorem for_continue_next_upto {n : Nat} {l : Loc}
+    (hb : evalBlock n (σ.alloc (.list [k, v])).2 sc [(lhs, SVal.plain (.list (σ.alloc (.list [k, v])).1))] stmts = .ok (.cont l) σ2) :
+    FuelEq (fun m => evalFor m σ sc lhs ((k, v) :: r) stmts) (fun m => evalFor m σ2 sc lhs r stmts) :=
+  FuelEq.of_shift (fun m => (monoAll m).evalFor _ _ _ _ _) (fun m => (monoAll m).evalFor _ _ _ _ _) n
+    fun m hm => for_continue_next m (block_mono hb (by simp) hm)
+
+theorem for_normal_next (n : Nat)
+    (hb : evalBlock n (σ.alloc (.list [k, v])).2 sc [(lhs, SVal.plain (.list (σ.alloc (.list [k, v])).1))] stmts = .ok .none σ2) :
+    evalFor (n + 1) σ sc lhs ((k, v) :: r) stmts = evalFor n σ2 sc lhs r stmts := by
+  rw [for_step, hb]; rfl
+
+theorem for_normal_next_upto {n : Nat}
+    (hb : evalBlock n (σ.alloc (.list [k, v])).2 sc [(lhs, SVal.plain (.list (σ.alloc (.list [k, v])).1))] stmts = .ok .none σ2) :
+    FuelEq (fun m => evalFor m σ sc lhs ((k, v) :: r) stmts) (fun m => evalFor m σ2 sc lhs r stmts) :=
+  FuelEq.of_shift (fun m => (monoAll m).evalFor _ _ _ _ _) (fun m => (monoAll m).evalFor _ _ _ _ _) n
+    fun m hm => for_normal_next m (block_mono hb (by simp) hm)
+
+/-- `return` escaping the body of a `for` is forwarded -/
+theorem for_return_propagates (n : Nat) {w : SVal} {l : Loc}
+    (hb : evalBlock n (σ.alloc (.list [k, v])).2 sc [(lhs, SVal.plain (.list (σ.alloc (.list [k, v])).1))] stmts = .ok (.ret w l) σ2) :
+    evalFor (n + 1) σ sc lhs ((k, v) :: r) stmts = .ok (.ret w l) σ2 := by
+  rw [for_step, hb]; rfl
+
+end loops
+
+/-! ### … through any depth of blocks and branches inside the body -/
+
+/-- a body `C[j]` run as a block with bindings: once the bindings are declared in the fresh scope and the path to the
+    hole is taken from there, the block yields the escape of `j`, at every sufficient fuel -/
+theorem block_jump_through_ctx (C : JCtx) (j : Stmt) {σ σb σ' σ'' : State} {sc sc' : List Addr} {bs : List (Expr × SVal)}
+    {esc : Escape} {nd n : Nat}
+    (hd : declareAll nd (σ.alloc (.scope [])).2 ((σ.alloc (.scope [])).1 :: sc) bs = .ok () σb)
+    (ht : Taken C σb ((σ.alloc (.scope [])).1 :: sc) σ' sc') (hj : evalStmt n σ' sc' j = .ok esc σ'') (hesc : esc ≠ .none) :
+    ∃ k, ∀ m, k ≤ m → evalBlock m σ sc bs (C.plug j) = .ok esc σ'' := by
+  obtain ⟨k, hk⟩ := jump_through_ctx C j ht hj hesc
+  refine ⟨max nd k + 1, fun m hm => ?_⟩
+  have h1 : evalBlock (max nd k + 1) σ sc bs (C.plug j) = .ok esc σ'' := by
+    rw [block_after_decl _ (declareAll_mono hd (by simp) (Nat.le_max_left nd k))]
+    exact stmts_mono hk (by simp) (Nat.le_max_right nd k)
+  exact block_mono h1 (by simp) hm
+
+/-- a block without bindings declares nothing -/
+theorem declareAll_nil (n : Nat) (σ : State) (sc : List Addr) : declareAll (n + 1) σ sc [] = .ok () σ := by
+  unfold declareAll; rfl
+
+section through
+variable {σ σ1 σ' σ'' : State} {sc sc' : List Addr} {cond : Expr}
+
+/-- **`break` targets the enclosing `while`, from any depth.**  The condition holds, the path through the body to the
+    `break` is taken: the `while` statement completes normally in the state at the `break`. -/
+theorem while_break_through_ctx (C : JCtx) (l : Loc) {n : Nat} (hc : evalToBool n σ sc c!"condition" cond = .ok true σ1)
+    (ht : Taken C (σ1.alloc (.scope [])).2 ((σ1.alloc (.scope [])).1 :: sc) σ' sc') :
+    ∃ k, ∀ m, k ≤ m → evalStmt m σ sc (.While cond (C.plug (.Break l))) = .ok .none σ' := by
+  obtain ⟨k, hk⟩ := block_jump_through_ctx C (.Break l) (declareAll_nil 0 _ _) ht (break_escapes 0 σ' sc' l) (by simp)
+  refine ⟨max n k + 2, fun m hm => ?_⟩
+  have h1 : evalStmt (max n k + 2) σ sc (.While cond (C.plug (.Break l))) = .ok .none σ' := by
+    rw [while_enters]
+    exact while_break_exits _ (bool_mono hc (by simp) (Nat.le_max_left n k)) (hk _ (Nat.le_max_right n k))
+  exact stmt_mono h1 (by simp) hm
+
+/-- **`continue` targets the enclosing `while`, from any depth**: the loop goes on from the state at the `continue`,
+    starting with the condition; the rest of the body is skipped. -/
+theorem while_continue_through_ctx (C : JCtx) (l : Loc) {n : Nat} (hc : evalToBool n σ sc c!"condition" cond = .ok true σ1)
+    (ht : Taken C (σ1.alloc (.scope [])).2 ((σ1.alloc (.scope [])).1 :: sc) σ' sc') :
+    FuelEq (fun k => evalWhile k σ sc cond (C.plug (.Continue l))) (fun k => evalWhile k σ' sc cond (C.plug (.Continue l))) := by
+  obtain ⟨k, hk⟩ := block_jump_through_ctx C (.Continue l) (declareAll_nil 0 _ _) ht (continue_escapes 0 σ' sc' l) (by simp)
+  exact while_continue_reenters_upto hc (hk k (Nat.le_refl k))
+
+/-- **`return` passes through the enclosing `while`, from any depth**, with the value of its expression -/
+theorem while_return_through_ctx (C : JCtx) (l : Loc) (e : Expr) {v : SVal} {n ne : Nat}
+    (hc : evalToBool n σ sc c!"condition" cond = .ok true σ1)
+    (ht : Taken C (σ1.alloc (.scope [])).2 ((σ1.alloc (.scope [])).1 :: sc) σ' sc')
+    (he : evalExpr ne σ' sc' e = .ok v σ'') :
+    ∃ k, ∀ m, k ≤ m → evalStmt m σ sc (.While cond (C.plug (.Return l e))) = .ok (.ret v l) σ'' := by
+  obtain ⟨k, hk⟩ := block_jump_through_ctx C (.Return l e) (declareAll_nil 0 _ _) ht (return_escapes ne _ _ sc' l e v he) (by simp)
+  refine ⟨max n k + 2, fun m hm => ?_⟩
+  have h1 : evalStmt (max n k + 2) σ sc (.While cond (C.plug (.Return l e))) = .ok (.ret v l) σ'' := by
+    rw [while_enters]
+    exact while_return_propagates _ (bool_mono hc (by simp) (Nat.le_max_left n k)) (hk _ (Nat.le_max_right n k))
+  exact stmt_mono h1 (by simp) hm
+
+variable {σb : State} {lhs : Expr} {key val : SVal} {r : List (SVal × SVal)}
+
+/-- **`break` targets the enclosing `for`, from any depth**: the remaining pairs are dropped.  `σb` is the state after the
+    loop variable(s) have been bound to the pair in the fresh scope. -/
+theorem for_break_through_ctx (C : JCtx) (l : Loc) {nd : Nat}
+    (hd : declareAll nd ((σ.alloc (.list [key, val])).2.alloc (.scope [])).2 (((σ.alloc (.list [key, val])).2.alloc (.scope [])).1 :: sc)
+      [(lhs, SVal.plain (.list (σ.alloc (.list [key, val])).1))] = .ok () σb)
+    (ht : Taken C σb (((σ.alloc (.list [key, val])).2.alloc (.scope [])).1 :: sc) σ' sc') :
+    ∃ k, ∀ m, k ≤ m → evalFor m σ sc lhs ((key, val) :: r) (C.plug (.Break l)) = .ok .none σ' := by
+  obtain ⟨k, hk⟩ := block_jump_through_ctx C (.Break l) hd ht (break_escapes 0 σ' sc' l) (by simp)
+  refine ⟨k + 1, fun m hm => ?_⟩
+  exact for_mono (for_break_exits k (hk k (Nat.le_refl k))) (by simp) hm
+
+theorem for_continue_through_ctx (C : JCtx) (l : Loc) {nd : Nat}
+    (hd : declareAll nd ((σ.alloc (.list [key, val])).2.alloc (.scope [])).2 (((σ.alloc (.list [key, val])).2.alloc (.scope [])).1 :: sc)
+      [(lhs, SVal.plain (.list (σ.alloc (.list [key, val])).1))] = .ok () σb)
+    (ht : Taken C σb (((σ.alloc (.list [key, val])).2.alloc (.scope [])).1 :: sc) σ' sc') :
+    FuelEq (fun m => evalFor m σ sc lhs ((key, val) :: r) (C.plug (.Continue l)))
+      (fun m => evalFor m σ' sc lhs r (C.plug (.Continue l))) := by
+  obtain ⟨k, hk⟩ := block_jump_through_ctx C (.Continue l) hd ht (continue_escapes 0 σ' sc' l) (by simp)
+  exact for_continue_next_upto (hk k (Nat.le_refl k))
+
+theorem for_return_through_ctx (C : JCtx) (l : Loc) (e : Expr) {v : SVal} {nd ne : Nat}
+    (hd : declareAll nd ((σ.alloc (.list [key, val])).2.alloc (.scope [])).2 (((σ.alloc (.list [key, val])).2.alloc (.scope [])).1 :: sc)
+      [(lhs, SVal.plain (.list (σ.alloc (.list [key, val])).1))] = .ok () σb)
+    (ht : Taken C σb (((σ.alloc (.list [key, val])).2.alloc (.scope [])).1 :: sc) σ' sc')
+    (he : evalExpr ne σ' sc' e = .ok v σ'') :
+    ∃ k, ∀ m, k ≤ m → evalFor m σ sc lhs ((key, val) :: r) (C.plug (.Return l e)) = .ok (.ret v l) σ'' := by
+  obtain ⟨k, hk⟩ := block_jump_through_ctx C (.Return l e) hd ht (return_escapes ne _ _ sc' l e v he) (by simp)
+  refine ⟨k + 1, fun m hm => ?_⟩
+  exact for_mono (for_return_propagates k (hk k (Nat.le_refl k))) (by simp) hm
+
+end through
+
+/-! ### nested loops: the innermost one is the target -/
+
+/-- a statement that completes normally (from some fuel on) is transparent: the list continues with the rest -/
+theorem stmts_cons_fuelEq {σ σ1 : State} {sc : List Addr} {st : Stmt} (rest : List Stmt) {k0 : Nat}
+    (h : ∀ m, k0 ≤ m → evalStmt m σ sc st = .ok .none σ1) :
+    FuelEq (fun k => evalStmts k σ sc (st :: rest)) (fun k => evalStmts k σ1 sc rest) :=
+  FuelEq.of_shift (fun k => (monoAll k).evalStmts _ _ _) (fun k => (monoAll k).evalStmts _ _ _) k0
+    fun m hm => normal_continues m _ _ _ _ _ (h m hm)
+
+/-- a prefix that completes normally is transparent -/
+theorem stmts_prefix_fuelEq {σ σ1 : State} {sc : List Addr} {pre : List Stmt} (rest : List Stmt) {n : Nat}
+    (h : evalStmts n σ sc pre = .ok .none σ1) :
+    FuelEq (fun k => evalStmts k σ sc (pre ++ rest)) (fun k => evalStmts k σ1 sc rest) := by
+  induction pre generalizing n σ with
+  | nil =>
+    cases n with
+    | zero => unfold evalStmts at h; simp at h
+    | succ n => unfold evalStmts at h; simp at h; subst h; exact FuelEq.refl _
+  | cons st pre ih =>
+    cases n with
+    | zero => unfold evalStmts at h; simp at h
+    | succ n =>
+      unfold evalStmts at h
+      cases hst : evalStmt n σ sc st with
+      | timeout => simp [hst, Res.bind] at h
+      | err e σ2 => simp [hst, Res.bind] at h
+      | crash w σ2 => simp [hst, Res.bind] at h
+      | ok esc σ2 =>
+        cases esc with
+        | none =>
+          simp only [hst, Res.bind] at h
+          exact FuelEq.trans (stmts_cons_fuelEq (pre ++ rest) (k0 := n) fun m hm => stmt_mono hst (by simp) hm) (ih h)
+        | brk l => simp [hst, Res.bind] at h
+        | cont l => simp [hst, Res.bind] at h
+        | ret v l => simp [hst, Res.bind] at h
+
+/-- a block without bindings is its statements in the fresh scope -/
+theorem block_fuelEq (σ : State) (sc : List Addr) (b : List Stmt) :
+    FuelEq (fun k => evalBlock k σ sc [] b) (fun k => evalStmts k (σ.alloc (.scope [])).2 ((σ.alloc (.scope [])).1 :: sc) b) := by
+  refine FuelEq.of_shift (fun k => (monoAll k).evalBlock _ _ _ _) (fun k => (monoAll k).evalStmts _ _ _) 1 fun m hm => ?_
+  obtain ⟨m', rfl⟩ : ∃ m', m = m' + 1 := ⟨m - 1, by omega⟩
+  exact block_fresh_scope m' σ sc b
+
+/-- **`break` targets the innermost loop.**  In `while c1 { pre; while c2 { C[break] }; post }`, when the path to the
+    `break` is taken, (a) the body of the outer loop goes on with `post`, in the outer body's scope and in the state at
+    the `break` — the outer loop has not been left — and (b) if `post` completes normally the outer loop is re-entered
+    (its condition is evaluated again) from the state after `post`. -/
+theorem break_targets_innermost (C : JCtx) (l : Loc) (c1 c2 : Expr) (pre post : List Stmt)
+    {σ σ1 σp σq σ' : State} {sc sc' : List Addr} {n1 n2 n3 : Nat}
+    (hc1 : evalToBool n1 σ sc c!"condition" c1 = .ok true σ1)
+    (hpre : evalStmts n2 (σ1.alloc (.scope [])).2 ((σ1.alloc (.scope [])).1 :: sc) pre = .ok .none σp)
+    (hc2 : evalToBool n3 σp ((σ1.alloc (.scope [])).1 :: sc) c!"condition" c2 = .ok true σq)
+    (ht : Taken C (σq.alloc (.scope [])).2 ((σq.alloc (.scope [])).1 :: (σ1.alloc (.scope [])).1 :: sc) σ' sc') :
+    FuelEq (fun k => evalBlock k σ1 sc [] (pre ++ .While c2 (C.plug (.Break l)) :: post))
+      (fun k => evalStmts k σ' ((σ1.alloc (.scope [])).1 :: sc) post) ∧
+    ∀ {n4 : Nat} {σ'' : State}, evalStmts n4 σ' ((σ1.alloc (.scope [])).1 :: sc) post = .ok .none σ'' →
+      FuelEq (fun k => evalWhile k σ sc c1 (pre ++ .While c2 (C.plug (.Break l)) :: post))
+        (fun k => evalWhile k σ'' sc c1 (pre ++ .While c2 (C.plug (.Break l)) :: post)) := by
+  have ha : FuelEq (fun k => evalBlock k σ1 sc [] (pre ++ .While c2 (C.plug (.Break l)) :: post))
+      (fun k => evalStmts k σ' ((σ1.alloc (.scope [])).1 :: sc) post) := by
+    obtain ⟨k, hk⟩ := while_break_through_ctx C l hc2 ht
+    exact (block_fuelEq _ _ _).trans ((stmts_prefix_fuelEq _ hpre).trans (stmts_cons_fuelEq post hk))
+  refine ⟨ha, fun {n4 σ''} hpost => ?_⟩
+  obtain ⟨k, hk⟩ := (ha (.ok .none σ'') (by simp)).2 ⟨n4, hpost⟩
+  exact while_normal_reenters_upto hc1 hk
+
+/-- the same with a `for` as the outer loop is `for_normal_next_upto` after (a); with a `for` as the inner loop: -/
+theorem break_targets_innermost_for (C : JCtx) (l : Loc) (c1 lhs iter : Expr) (pre post : List Stmt)
+    {σ σ1 σp σi σb σ' : State} {sc sc' : List Addr} {n1 n2 n3 nd : Nat} {it key val : SVal} {r : List (SVal × SVal)}
+    (hc1 : evalToBool n1 σ sc c!"condition" c1 = .ok true σ1)
+    (hpre : evalStmts n2 (σ1.alloc (.scope [])).2 ((σ1.alloc (.scope [])).1 :: sc) pre = .ok .none σp)
+    (hi : evalExpr n3 σp ((σ1.alloc (.scope [])).1 :: sc) iter = .ok it σi)
+    (hp : toPairs σi it.v = some (some ((key, val) :: r)))
+    (hd : declareAll nd ((σi.alloc (.list [key, val])).2.alloc (.scope [])).2
+      (((σi.alloc (.list [key, val])).2.alloc (.scope [])).1 :: (σ1.alloc (.scope [])).1 :: sc)
+      [(lhs, SVal.plain (.list (σi.alloc (.list [key, val])).1))] = .ok () σb)
+    (ht : Taken C σb (((σi.alloc (.list [key, val])).2.alloc (.scope [])).1 :: (σ1.alloc (.scope [])).1 :: sc) σ' sc') :
+    FuelEq (fun k => evalBlock k σ1 sc [] (pre ++ .For lhs iter (C.plug (.Break l)) :: post))
+      (fun k => evalStmts k σ' ((σ1.alloc (.scope [])).1 :: sc) post) ∧
+    ∀ {n4 : Nat} {σ'' : State}, evalStmts n4 σ' ((σ1.alloc (.scope [])).1 :: sc) post = .ok .none σ'' →
+      FuelEq (fun k => evalWhile k σ sc c1 (pre ++ .For lhs iter (C.plug (.Break l)) :: post))
+        (fun k => evalWhile k σ'' sc c1 (pre ++ .For lhs iter (C.plug (.Break l)) :: post)) := by
+  suffices ha : FuelEq (fun k => evalBlock k σ1 sc [] (pre ++ .For lhs iter (C.plug (.Break l)) :: post))
+      (fun k => evalStmts k σ' ((σ1.alloc (.scope [])).1 :: sc) post) by
+    refine ⟨ha, fun {n4 σ''} hpost => ?_⟩
+    obtain ⟨k, hk⟩ := (ha (.ok .none σ'') (by simp)).2 ⟨n4, hpost⟩
+    exact while_normal_reenters_upto hc1 hk
+  obtain ⟨k, hk⟩ := for_break_through_ctx (r := r) C l hd ht
+  have hfor : ∀ m, max n3 k + 1 ≤ m →
+      evalStmt m σp ((σ1.alloc (.scope [])).1 :: sc) (.For lhs iter (C.plug (.Break l))) = .ok .none σ' := by
+    intro m hm
+    have h1 : evalStmt (max n3 k + 1) σp ((σ1.alloc (.scope [])).1 :: sc) (.For lhs iter (C.plug (.Break l))) = .ok .none σ' := by
+      rw [for_enters _ _ _ _ _ _ _ _ _ (evalExpr_fuel_mono hi (by simp) (Nat.le_max_left n3 k)) hp]
+      exact hk _ (Nat.le_max_right n3 k)
+    exact stmt_mono h1 (by simp) hm
+  exact (block_fuelEq _ _ _).trans ((stmts_prefix_fuelEq _ hpre).trans (stmts_cons_fuelEq post hfor))
+
+/-! ### the call boundary: `return` ends exactly the innermost enclosing call -/
+
+/-- **`return` ends exactly the innermost enclosing call.**  A user function whose body is `C[return e]`, called with
+    matching arity: when the path to the `return` is taken (through any blocks, branches — and, by
+    `while_return_through_ctx` / `for_return_through_ctx`, loops), the call expression evaluates to the value of `e`,
+    in the state after evaluating `e`.  The caller sees a value: it goes on with whatever follows the call. -/
+theorem return_ends_call (C : JCtx) (l : Loc) (e : Expr) {n nd ne : Nat} {σ σ1 σ2 σb σ' σ'' : State} {sc sc' : List Addr}
+    {f : Expr} {args : List ListItem} (loc : Loc) {argVals : List SVal} {fv : SVal} {a : Addr} {fr : FuncRec} {v : SVal}
+    (hargs : evalListItems n σ sc args [] = .ok argVals σ1) (hf : evalExpr n σ1 sc f = .ok fv σ2)
+    (hv : fv.v = .func a) (hfr : σ2.getFunc a = some fr) (har : ArityOK fr argVals.length)
+    (hbody : fr.stmts = C.plug (.Return l e))
+    (hd : declareAll nd ((callVals σ2 fr argVals).2.alloc (.scope [])).2 (((callVals σ2 fr argVals).2.alloc (.scope [])).1 :: fr.closure)
+      (callBindings σ2 fr fv.src argVals loc) = .ok () σb)
+    (ht : Taken C σb (((callVals σ2 fr argVals).2.alloc (.scope [])).1 :: fr.closure) σ' sc')
+    (he : evalExpr ne σ' sc' e = .ok v σ'') :
+    ∃ k, ∀ m, k ≤ m → evalCall m σ sc f args loc = .ok v σ'' := by
+  obtain ⟨k, hk⟩ := block_jump_through_ctx C (.Return l e) hd ht (return_escapes ne _ _ sc' l e v he) (by simp)
+  refine ⟨max n k + 1, fun m hm => ?_⟩
+  have h1 : evalCall (max n k + 1) σ sc f args loc = .ok v σ'' := by
+    refine call_return loc (listItems_mono hargs (by simp) (Nat.le_max_left n k))
+      (evalExpr_fuel_mono hf (by simp) (Nat.le_max_left n k)) hv hfr har (l := l) ?_
+    rw [hbody]
+    exact hk _ (Nat.le_max_right n k)
+  exact call_mono h1 (by simp) hm
+
+/-- and a `break` / `continue` that would leave the function body is an error at the call, whatever loop surrounds the
+    call: it cannot act on a loop of the caller -/
+theorem break_stops_at_call (C : JCtx) (l : Loc) {n nd : Nat} {σ σ1 σ2 σb σ' : State} {sc sc' : List Addr}
+    {f : Expr} {args : List ListItem} (loc : Loc) {argVals : List SVal} {fv : SVal} {a : Addr} {fr : FuncRec}
+    (hargs : evalListItems n σ sc args [] = .ok argVals σ1) (hf : evalExpr n σ1 sc f = .ok fv σ2)
+    (hv : fv.v = .func a) (hfr : σ2.getFunc a = some fr) (har : ArityOK fr argVals.length)
+    (hbody : fr.stmts = C.plug (.Break l))
+    (hd : declareAll nd ((callVals σ2 fr argVals).2.alloc (.scope [])).2 (((callVals σ2 fr argVals).2.alloc (.scope [])).1 :: fr.closure)
+      (callBindings σ2 fr fv.src argVals loc) = .ok () σb)
+    (ht : Taken C σb (((callVals σ2 fr argVals).2.alloc (.scope [])).1 :: fr.closure) σ' sc') :
+    ∃ k, ∀ m, k ≤ m → evalCall m σ sc f args loc = .err (Err.at l Gen.Leaf.BreakOutsideLoop) σ' := by
+  obtain ⟨k, hk⟩ := block_jump_through_ctx C (.Break l) hd ht (break_escapes 0 σ' sc' l) (by simp)
+  refine ⟨max n k + 1, fun m hm => ?_⟩
+  have h1 : evalCall (max n k + 1) σ sc f args loc = .err (Err.at l Gen.Leaf.BreakOutsideLoop) σ' := by
+    refine call_break_is_error loc (listItems_mono hargs (by simp) (Nat.le_max_left n k))
+      (evalExpr_fuel_mono hf (by simp) (Nat.le_max_left n k)) hv hfr har (l := l) ?_
+    rw [hbody]
+    exact hk _ (Nat.le_max_right n k)
+  exact call_mono h1 (by simp) hm
+
+/-! ### non-vacuity: the hypotheses of the theorems above on concrete programs -/
+section examples
+
+private def tt : Expr := .mk (.Bool true) (1, 7)
+private def seven : Expr := .mk (.Int 7) (3, 9)
+private def σa : State := (State.init.alloc (.scope [])).2
+
+/-- `while true { break }`: hypotheses of `while_break_exits`, and the loop followed by another statement -/
+example : evalToBool 3 State.init [] c!"condition" tt = .ok true State.init ∧
+    evalBlock 3 State.init [] [] [.Break (1, 14)] = .ok (.brk (1, 14)) σa :=
+  ⟨by with_unfolding_all rfl, by with_unfolding_all rfl⟩
+example : evalStmts 6 State.init [] [.While tt [.Break (1, 14)], .Break (2, 1)] = .ok (.brk (2, 1)) σa := by
+  rw [while_break_then_rest 3 (l := (1, 14)) _ (σ1 := State.init) (σ2 := σa) (by with_unfolding_all rfl) (by with_unfolding_all rfl)]
+  with_unfolding_all rfl
+/-- `while true { continue }`, `while true { return 7 }`: hypotheses of `while_continue_reenters`, `while_return_propagates` -/
+example : evalBlock 3 State.init [] [] [.Continue (1, 14)] = .ok (.cont (1, 14)) σa := by with_unfolding_all rfl
+example : evalBlock 4 State.init [] [] [.Return (1, 14) seven] = .ok (.ret (SVal.plain (.int 7)) (1, 14)) σa := by
+  with_unfolding_all rfl
+example : evalWhile 5 State.init [] tt [.Return (1, 14) seven] = .ok (.ret (SVal.plain (.int 7)) (1, 14)) σa :=
+  while_return_propagates 4 (σ1 := State.init) (by with_unfolding_all rfl) (by with_unfolding_all rfl)
+
+/-- a `for` body over the pair `[0, 10]` bound to `p`: hypotheses of `for_break_exits`, `for_continue_next`, `for_return_propagates` -/
+private def σl : State := (State.init.alloc (.list [SVal.plain (.int 0), SVal.plain (.int 10)])).2
+private def pvar : Expr := .mk (.Var c!"p") (1, 5)
+example : ∃ σ2, evalBlock 6 σl [] [(pvar, SVal.plain (.list 0))] [.Break (1, 14)] = .ok (.brk (1, 14)) σ2 :=
+  ⟨_, by with_unfolding_all rfl⟩
+example : ∃ σ2, evalBlock 6 σl [] [(pvar, SVal.plain (.list 0))] [.Continue (1, 14)] = .ok (.cont (1, 14)) σ2 :=
+  ⟨_, by with_unfolding_all rfl⟩
+example : ∃ σ2, evalBlock 6 σl [] [(pvar, SVal.plain (.list 0))] [.Return (1, 14) seven] = .ok (.ret (SVal.plain (.int 7)) (1, 14)) σ2 :=
+  ⟨_, by with_unfolding_all rfl⟩
+example : ∃ σb, declareAll 5 (σl.alloc (.scope [])).2 [(σl.alloc (.scope [])).1] [(pvar, SVal.plain (.list 0))] = .ok () σb :=
+  ⟨_, by with_unfolding_all rfl⟩
+
+/-- the context `if true { □ }; continue` (the trailing `continue` must not run) -/
+private def Cif : JCtx := .seq [] (.ifBranch [] tt .hole [] none) [.Continue (9, 9)]
+example : Cif.plug (.Break (2, 3)) = [.If [.mk tt [.Break (2, 3)]] none, .Continue (9, 9)] := rfl
+private theorem cif_taken (σ : State) (sc : List Addr) : Taken Cif σ sc (σ.alloc (.scope [])).2 ((σ.alloc (.scope [])).1 :: sc) :=
+  Taken.seq 1 (by unfold evalStmts; rfl) (Taken.ifBranch 2 (AllFalse.nil _ _) (by with_unfolding_all rfl) (Taken.hole _ _))
+
+/-- `while true { if true { break }; continue }` ends, at the state of the `break` -/
+example : ∃ k, ∀ m, k ≤ m → evalStmt m State.init [] (.While tt (Cif.plug (.Break (2, 3)))) = .ok .none (σa.alloc (.scope [])).2 :=
+  while_break_through_ctx Cif (2, 3) (n := 2) (σ1 := State.init) (by with_unfolding_all rfl) (cif_taken _ _)
+
+/-- `while true { while true { if true { break }; continue }; return 7 }`: after the inner `break` the outer body goes
+    on with `return 7` -/
+example : FuelEq (fun k => evalBlock k State.init [] [] ([] ++ .While tt (Cif.plug (.Break (2, 3))) :: [.Return (3, 2) seven]))
+    (fun k => evalStmts k ((σa.alloc (.scope [])).2.alloc (.scope [])).2 [0] [.Return (3, 2) seven]) :=
+  (break_targets_innermost Cif (2, 3) tt tt [] [.Return (3, 2) seven] (σ := State.init) (σ1 := State.init) (σp := σa) (σq := σa)
+    (n1 := 2) (n2 := 1) (n3 := 2) (by with_unfolding_all rfl) (by with_unfolding_all rfl) (by with_unfolding_all rfl) (cif_taken _ _)).1
+
+/-- the same programs, whole: inner `break` leaves only the inner loop; `return` inside two loops and a branch ends the
+    call; a `break` in a function called from a loop is an error, not a `break` of that loop -/
+example : (run 200 c!"t.sd" c!"i := 0;\nwhile i < 3 {\n j := 0;\n while true {\n if j == 2 { break; }\n j += 1;\n }\n print(j);\n i += 1;\n}\nprint(\"done\");\n").out
+    = [c!"2", c!"2", c!"2", c!"done"] := by decide +kernel
+example : (run 200 c!"t.sd" c!"for [i, x] in [10, 20, 30] {\n if i == 1 { continue; }\n print(x);\n}\n").out = [c!"10", c!"30"] := by
+  decide +kernel
+example : (run 200 c!"t.sd" c!"fn f() {\n while true {\n for x in [1] {\n if true { return 7; }\n }\n }\n}\nprint(f());\nprint(1);\n").out
+    = [c!"7", c!"1"] := by decide +kernel
+example : (run 200 c!"t.sd" c!"fn f() { break; }\nwhile true { f(); }\n").stderr = c!"t.sd:1:10: 'break' can't be used outside of a loop\n" := by
+  decide +kernel
+
+/-- a heap with `fn f() { if true { return 7 }; continue }` at address 1, bound to `f` in scope 0 -/
+private def σf : State :=
+  ⟨#[.scope [(c!"f", SVal.plain (.func 1), (1, 3))], .func ⟨some c!"f", [], false, Cif.plug (.Return (2, 3) seven), [0]⟩], []⟩
+private def fvar : Expr := .mk (.Var c!"f") (5, 0)
+example : ∃ k σ'', ∀ m, k ≤ m → evalCall m σf [0] fvar [] (5, 1) = .ok (SVal.plain (.int 7)) σ'' := by
+  obtain ⟨k, hk⟩ := return_ends_call Cif (2, 3) seven (5, 1) (n := 2) (nd := 1) (ne := 1) (σ := σf) (σ1 := σf) (σ2 := σf) (sc := [0]) (f := fvar) (args := []) (argVals := [])
+    (fv := SVal.plain (.func 1)) (a := 1) (fr := ⟨some c!"f", [], false, Cif.plug (.Return (2, 3) seven), [0]⟩)
+    (v := SVal.plain (.int 7))
+    (by with_unfolding_all rfl) (by with_unfolding_all rfl) rfl (by with_unfolding_all rfl) (by decide) rfl
+    (by with_unfolding_all rfl) (cif_taken _ _) (by with_unfolding_all rfl)
+  exact ⟨k, _, hk⟩
+
+end examples
 end Seed.C07
